@@ -574,6 +574,7 @@ pub fn c16_eval_frag(case: &FragCase, st: &mut RunStats) -> Vec<Violation> {
     }
     let mut queue: Vec<QSample> = Vec::new();
     let mut any = false;
+    let mut flushed_ticks: i128 = 0;
     for (i, op) in case.ops.iter().enumerate() {
         match (op, &ex.ops[i]) {
             (FragOp::Write { pts, dts, data, sync }, FragRes::WriteOk) => queue.push(QSample { pts: *pts, dts: *dts, data: data.0.clone(), sync: *sync, op: i }),
@@ -587,6 +588,13 @@ pub fn c16_eval_frag(case: &FragCase, st: &mut RunStats) -> Vec<Violation> {
                     Ok(tree) => {
                         let mut probs = Vec::new();
                         let m = reader::decode_movie(b, &tree, &mut probs);
+                        if let Some(d) = m.mehd_duration {
+                            // a declared overall duration must be what the segments emitted so far add up to
+                            if d as i128 != flushed_ticks {
+                                out.push(v("C16", "movie-duration", if flushed_ticks > u32::MAX as i128 { "init:mehd:wrapped" } else { "init:mehd:value" }, format!("init segment requested at op {} declares fragment_duration {} but the segments flushed so far describe {} ticks", i, d, flushed_ticks)));
+                                return out;
+                            }
+                        }
                         if let Some(t) = m.tracks.first() {
                             if t.width.map(|w| w as u32) != Some(case.cfg.width) || t.height.map(|h| h as u32) != Some(case.cfg.height) {
                                 out.push(v("C16", "dimensions", if case.cfg.width > 65535 || case.cfg.height > 65535 { "init-sample-entry:over-65535" } else { "init-sample-entry:value" }, format!("init segment sample entry says {:?}x{:?}, configured {}x{}", t.width, t.height, case.cfg.width, case.cfg.height)));
@@ -666,6 +674,7 @@ pub fn c16_eval_frag(case: &FragCase, st: &mut RunStats) -> Vec<Violation> {
                     out.push(v("C16", "data-offset", "frag", format!("op {}: trun data offset {:?}, moof size + 8 = {}", i, f.data_offset, want_off)));
                     return out;
                 }
+                flushed_ticks += f.samples.iter().map(|x| x.duration.unwrap_or(0) as i128).sum::<i128>();
                 queue.clear();
             }
             _ => {}
